@@ -385,23 +385,18 @@ def summarise(run, dom, body, where='', collect=False, parallel=None):
         B = [f for f, k in zip(st1.pc[base:], st1.pck[base:]) if k == 'B']
         A = [f for f, k in zip(st1.pc[base:], st1.pck[base:]) if k == 'A']
         guards.append((z3.And(*B) if B else z3.BoolVal(True), z3.And(*A) if A else z3.BoolVal(True)))
-    if raising:
-        # a raise in some iteration: reported as an exceptional exit of the function from an over-approximated state
-        for (kind, payload, st1, pctx, env1), (B, A) in zip(ends, guards):
-            if kind == 'raise':
-                run.eng.loop_raise(run, payload, st1, B, A, where)
     if not normal:
+        if raising:
+            for (kind, payload, st1, pctx, env1), (B, A) in zip(ends, guards):
+                if kind == 'raise':
+                    exc = st0.clone()
+                    exc.assume(n > 0)
+                    exc.assume(gen(z3.And(B, A), z3.IntVal(0)))
+                    run.eng.loop_raise(run, payload, exc, B, A, where)
         raise Infeasible()
 
-    post = run.st          # continue in the pre-loop state object (it is ours)
     nguards = [g for e, g in zip(ends, guards) if e[0] == 'ok']
-    post.assume(z3.ForAll([i_], z3.Implies(rng, z3.Or(*[gen(B) for B, _ in nguards]))) if len(nguards) > 1 or raising
-                else z3.BoolVal(True))
-    for B, A in nguards:
-        if not z3.is_true(A):
-            post.assume(z3.ForAll([i_], z3.Implies(z3.And(rng, gen(B)), gen(A))))
-    if inv is not None:
-        inv.check_and_assume(run, sti, normal, nguards, carried, ik, n, gen, i_)
+    pre_loop = st0.clone() if raising else None
 
     def merged(getter):
         """ite-merge over the normal paths of a term extracted from each end state."""
@@ -411,127 +406,165 @@ def summarise(run, dom, body, where='', collect=False, parallel=None):
             r = z3.If(B, t, r)
         return r
 
-    # indexed maps / lists
-    for loc, cols in indexed.items():
-        o0 = st0.heap[loc]
-        if cols == 'list':
-            v = merged(lambda st1, env1: st1.heap[loc].elems[ik])
-            j = bound('j', Int)
-            ek = o0.ekind
-            for (_, _, st1, _, _) in normal:
-                if st1.heap[loc].ekind not in (None, 'none'):
-                    ek = st1.heap[loc].ekind
-            post.heap[loc] = SymListO(o0.length, z3.Lambda([j], z3.If(z3.And(j >= 0, j < n), gen(v, j), o0.elems[j])), ek)
-            post.written.add((loc, '*'))
-            continue
-        nm = o0
-        if loc in built:
-            inserting = [(k, e) for k, e in enumerate(normal) if e[2].heap[loc].cols]
-            if not inserting:
+    def carried_getter(desc):
+        if desc[0] == 'field':
+            return lambda st1, env1, loc=desc[1], f=desc[2]: st1.heap[loc].fields[f].term
+        if desc[0] == 'mapkeys':
+            return lambda st1, env1, loc=desc[1]: st1.heap[loc].keys
+        if desc[0] == 'mapcol':
+            return lambda st1, env1, loc=desc[1], c=desc[2]: st1.heap[loc].cols[c]
+        if desc[0] == 'seqo':
+            return lambda st1, env1, loc=desc[1]: st1.heap[loc].term
+        if desc[0] == 'symlist.len':
+            return lambda st1, env1, loc=desc[1]: st1.heap[loc].length
+        if desc[0] == 'symlist.elems':
+            return lambda st1, env1, loc=desc[1]: st1.heap[loc].elems
+        if desc[0] == 'env':
+            return lambda st1, env1, nm=desc[1]: env1[nm].term
+
+    def build(post, upto, partial):
+        """State after iterations [0, upto) completed normally and, with partial=(end, guard), the part of iteration
+        `upto` that ran before it raised."""
+        full = partial is None
+        rng = z3.And(i_ >= 0, i_ < upto)
+        if len(nguards) > 1 or raising:
+            post.assume(z3.ForAll([i_], z3.Implies(rng, z3.Or(*[gen(B) for B, _ in nguards]))))
+        for B, A in nguards:
+            if not z3.is_true(A):
+                post.assume(z3.ForAll([i_], z3.Implies(z3.And(rng, gen(B)), gen(A))))
+        if not full:
+            (pk, ppayload, pst, ppctx, penv), (pB, pA) = partial
+            post.assume(gen(z3.And(pB, pA), upto))
+        if inv is not None and full:
+            inv.check_and_assume(run, sti, normal, nguards, carried, ik, n, gen, i_)
+        # indexed maps / lists
+        for loc, cols in indexed.items():
+            o0 = st0_heap[loc]
+            if cols == 'list':
+                v = merged(lambda st1, env1: st1.heap[loc].elems[ik])
+                j = bound('j', Int)
+                ek = o0.ekind
+                for (_, _, st1, _, _) in normal:
+                    if st1.heap[loc].ekind not in (None, 'none'):
+                        ek = st1.heap[loc].ekind
+                inner = o0.elems[j]
+                if not full:
+                    inner = z3.If(j == upto, gen(pst.heap[loc].elems[ik], upto), inner)
+                post.heap[loc] = SymListO(o0.length, z3.Lambda([j], z3.If(z3.And(j >= 0, j < upto), gen(v, j), inner)), ek)
+                post.written.add((loc, '*'))
                 continue
-            o1 = inserting[0][1][2].heap[loc]
-            if len(inserting) == len(normal):
-                newkeys = dom.arm_seq
-            else:
-                # keys: the iterated arms whose iteration inserted, in order (sub-sequence)
-                newkeys = fresh('inserted', ASeq)
-                Bins = z3.Or(*[nguards[k][0] for k, _ in inserting])
-                b_ = bound('b', Arm)
-                sq = dom.arm_seq
-                post.assume(z3.ForAll([a_], T.amem(newkeys, a_) == z3.And(T.amem(sq, a_), gen(Bins, T.apos(sq, a_), a_)),
-                                      patterns=[T.amem(newkeys, a_), T.amem(sq, a_)]))
-                post.assume(T.adistinct(newkeys))
-                post.assume(T.alen(newkeys) <= T.alen(sq))
-                post.assume(z3.ForAll([a_, b_], z3.Implies(z3.And(T.amem(newkeys, a_), T.amem(newkeys, b_)),
-                                                           (T.apos(newkeys, a_) < T.apos(newkeys, b_)) ==
-                                                           (T.apos(sq, a_) < T.apos(sq, b_))),
-                                      patterns=[z3.MultiPattern(T.apos(newkeys, a_), T.apos(newkeys, b_))]))
-            nm = MapO(newkeys, {}, o1.vkinds, o1.record_cls)
+            nm = o0
+            if loc in built:
+                if not full:
+                    continue        # a dict under construction when the loop was left: not described (over-approximated)
+                inserting = [(k, e) for k, e in enumerate(normal) if e[2].heap[loc].cols]
+                if not inserting:
+                    continue
+                o1 = inserting[0][1][2].heap[loc]
+                if len(inserting) == len(normal):
+                    newkeys = dom.arm_seq
+                else:
+                    # keys: the iterated arms whose iteration inserted, in order (sub-sequence)
+                    newkeys = fresh('inserted', ASeq)
+                    Bins = z3.Or(*[nguards[k][0] for k, _ in inserting])
+                    b_ = bound('b', Arm)
+                    sq = dom.arm_seq
+                    post.assume(z3.ForAll([a_], T.amem(newkeys, a_) == z3.And(T.amem(sq, a_), gen(Bins, T.apos(sq, a_), a_)),
+                                          patterns=[T.amem(newkeys, a_), T.amem(sq, a_)]))
+                    post.assume(T.adistinct(newkeys))
+                    post.assume(T.alen(newkeys) <= T.alen(sq))
+                    post.assume(z3.ForAll([a_, b_], z3.Implies(z3.And(T.amem(newkeys, a_), T.amem(newkeys, b_)),
+                                                               (T.apos(newkeys, a_) < T.apos(newkeys, b_)) ==
+                                                               (T.apos(sq, a_) < T.apos(sq, b_))),
+                                          patterns=[z3.MultiPattern(T.apos(newkeys, a_), T.apos(newkeys, b_))]))
+                nm = MapO(newkeys, {}, o1.vkinds, o1.record_cls)
+                for c in cols:
+                    terms = [(st1.heap[loc].cols[c][keyterm] if st1.heap[loc].cols else None) for (_, _, st1, _, _) in normal]
+                    dflt = [t for t in terms if t is not None][0]
+                    terms = [t if t is not None else dflt for t in terms]
+                    v = terms[-1]
+                    for (B, _), t in zip(reversed(nguards[:-1]), reversed(terms[:-1])):
+                        v = z3.If(B, t, v)
+                    nm.cols[c] = z3.Lambda([a_], gen(v, T.apos(dom.arm_seq, a_), a_))
+                post.heap[loc] = nm
+                post.written.add((loc, '*'))
+                continue
             for c in cols:
-                terms = [(st1.heap[loc].cols[c][keyterm] if st1.heap[loc].cols else None) for (_, _, st1, _, _) in normal]
-                dflt = [t for t in terms if t is not None][0]
-                terms = [t if t is not None else dflt for t in terms]
-                v = terms[-1]
-                for (B, _), t in zip(reversed(nguards[:-1]), reversed(terms[:-1])):
-                    v = z3.If(B, t, v)
-                nm.cols[c] = z3.Lambda([a_], gen(v, T.apos(dom.arm_seq, a_), a_))
+                v = merged(lambda st1, env1: st1.heap[loc].cols[c][keyterm])
+                done = T.amem(dom.arm_seq, a_)
+                inner = o0.cols[c][a_]
+                if not full:
+                    done = z3.And(done, T.apos(dom.arm_seq, a_) < upto)
+                    inner = z3.If(a_ == T.aat(dom.arm_seq, upto), gen(pst.heap[loc].cols[c][keyterm], upto), inner)
+                arr = z3.Lambda([a_], z3.If(done, gen(v, T.apos(dom.arm_seq, a_), a_), inner))
+                nm = nm.with_col(c, arr)
             post.heap[loc] = nm
-            post.written.add((loc, '*'))
-            continue
-        for c in cols:
-            v = merged(lambda st1, env1: st1.heap[loc].cols[c][keyterm])
-            arr = z3.Lambda([a_], z3.If(T.amem(dom.arm_seq, a_), gen(v, T.apos(dom.arm_seq, a_), a_), o0.cols[c][a_]))
-            nm = nm.with_col(c, arr)
-        post.heap[loc] = nm
-        post.written.add((loc, 'vals'))
-    # carried locations
-    for desc, itf, init in carried:
-        if itf is None:
-            _, loc, f, v = desc
-            o = post.heap[loc]
-            post.heap[loc] = o.set(f, run.eng.havoc_field_value(run, post, o.cls, f))
-            post.written.add((loc, f))
-            continue
-        post.assume(itf(0) == init)
-        if desc[0] == 'field':
-            _, loc, f, v = desc
-            get = lambda st1, env1, loc=loc, f=f: st1.heap[loc].fields[f].term
-        elif desc[0] == 'mapkeys':
-            get = lambda st1, env1, loc=desc[1]: st1.heap[loc].keys
-        elif desc[0] == 'mapcol':
-            get = lambda st1, env1, loc=desc[1], c=desc[2]: st1.heap[loc].cols[c]
-        elif desc[0] == 'seqo':
-            get = lambda st1, env1, loc=desc[1]: st1.heap[loc].term
-        elif desc[0] == 'symlist.len':
-            get = lambda st1, env1, loc=desc[1]: st1.heap[loc].length
-        elif desc[0] == 'symlist.elems':
-            get = lambda st1, env1, loc=desc[1]: st1.heap[loc].elems
-        elif desc[0] == 'env':
-            get = lambda st1, env1, nm=desc[1]: env1[nm].term
-        v = merged(get)
-        post.assume(z3.ForAll([i_], z3.Implies(rng, itf(i_ + 1) == gen(v)), patterns=[itf(i_ + 1)]))
-        ccf = _cond_closed_form(v, itf, ik, body_consts)
-        if ccf is not None:
-            # conditional update: it(i+1) = g(it(i), args(i)) if c(i) else it(i)
-            cnd, g, others = ccf
-            jj = bound('jit', Int)
-            arrs = [z3.Lambda([jj], z3.substitute(o, (ik, jj))) for o in [cnd] + others]
-            it_g = F('iterx_if_' + g.name(), init.sort(), Int, *[a.sort() for a in arrs], init.sort())
-            post.assume(z3.ForAll([i_], z3.Implies(i_ >= 0, itf(i_) == it_g(init, i_, *arrs)), patterns=[itf(i_)]))
-            run.note('rule:iterated-conditional-function ' + g.name())
-        cf = _closed_form(v, itf, ik, body_consts)
-        if cf is not None:
-            # iteration of a function g with per-index arguments: it(i) = iterx_g(init, i, [lambda j. arg_k(j)]...)
-            # where iterx_g(s,0,..) = s and iterx_g(s,i+1,A..) = g(iterx_g(s,i,A..), A1[i], ..)   (rule: induction on i)
-            g, others = cf
-            jj = bound('jit', Int)
-            arrs = [z3.Lambda([jj], z3.substitute(o, (ik, jj))) for o in others]
-            it_g = F('iterx_' + g.name(), init.sort(), Int, *[a.sort() for a in arrs], init.sort())
-            post.assume(z3.ForAll([i_], z3.Implies(i_ >= 0, itf(i_) == it_g(init, i_, *arrs)), patterns=[itf(i_)]))
-            run.note('rule:iterated-function ' + g.name())
-        final = itf(n)
-        if desc[0] == 'field':
-            _, loc, f, v0 = desc
-            post.heap[loc] = post.heap[loc].set(f, _with_term(v0, final))
-            post.written.add((loc, f))
-        elif desc[0] == 'mapkeys':
-            post.heap[desc[1]] = post.heap[desc[1]].with_keys(final)
-            post.written.add((desc[1], '*'))
-        elif desc[0] == 'mapcol':
-            post.heap[desc[1]] = post.heap[desc[1]].with_col(desc[2], final)
-            post.written.add((desc[1], 'vals'))
-        elif desc[0] == 'seqo':
-            post.heap[desc[1]] = SeqO(post.heap[desc[1]].skind, final)
-            post.written.add((desc[1], '*'))
-        elif desc[0] == 'symlist.len':
-            o = post.heap[desc[1]]
-            post.heap[desc[1]] = SymListO(final, o.elems, o.ekind)
-            post.written.add((desc[1], '*'))
-        elif desc[0] == 'symlist.elems':
-            o = post.heap[desc[1]]
-            post.heap[desc[1]] = SymListO(o.length, final, o.ekind)
-        elif desc[0] == 'env':
-            run.env[desc[1]] = _with_term(desc[2], final)
+            post.written.add((loc, 'vals'))
+        # carried locations
+        for desc, itf, init in carried:
+            if itf is None:
+                _, loc, f, v = desc
+                o = post.heap[loc]
+                post.heap[loc] = o.set(f, run.eng.havoc_field_value(run, post, o.cls, f))
+                post.written.add((loc, f))
+                continue
+            post.assume(itf(0) == init)
+            get = carried_getter(desc)
+            v = merged(get)
+            post.assume(z3.ForAll([i_], z3.Implies(rng, itf(i_ + 1) == gen(v)), patterns=[itf(i_ + 1)]))
+            ccf = _cond_closed_form(v, itf, ik, body_consts)
+            if ccf is not None:
+                # conditional update: it(i+1) = g(it(i), args(i)) if c(i) else it(i)
+                cnd, g, others = ccf
+                jj = bound('jit', Int)
+                arrs = [z3.Lambda([jj], z3.substitute(o, (ik, jj))) for o in [cnd] + others]
+                it_g = F('iterx_if_' + g.name(), init.sort(), Int, *[a.sort() for a in arrs], init.sort())
+                post.assume(z3.ForAll([i_], z3.Implies(i_ >= 0, itf(i_) == it_g(init, i_, *arrs)), patterns=[itf(i_)]))
+                run.note('rule:iterated-conditional-function ' + g.name())
+            cf = _closed_form(v, itf, ik, body_consts)
+            if cf is not None:
+                # iteration of a function g with per-index arguments: it(i) = iterx_g(init, i, [lambda j. arg_k(j)]...)
+                # where iterx_g(s,0,..) = s and iterx_g(s,i+1,A..) = g(iterx_g(s,i,A..), A1[i], ..)   (rule: induction on i)
+                g, others = cf
+                jj = bound('jit', Int)
+                arrs = [z3.Lambda([jj], z3.substitute(o, (ik, jj))) for o in others]
+                it_g = F('iterx_' + g.name(), init.sort(), Int, *[a.sort() for a in arrs], init.sort())
+                post.assume(z3.ForAll([i_], z3.Implies(i_ >= 0, itf(i_) == it_g(init, i_, *arrs)), patterns=[itf(i_)]))
+                run.note('rule:iterated-function ' + g.name())
+            final = itf(upto) if full else gen(get(pst, penv), upto)
+            if desc[0] == 'field':
+                _, loc, f, v0 = desc
+                post.heap[loc] = post.heap[loc].set(f, _with_term(v0, final))
+                post.written.add((loc, f))
+            elif desc[0] == 'mapkeys':
+                post.heap[desc[1]] = post.heap[desc[1]].with_keys(final)
+                post.written.add((desc[1], '*'))
+            elif desc[0] == 'mapcol':
+                post.heap[desc[1]] = post.heap[desc[1]].with_col(desc[2], final)
+                post.written.add((desc[1], 'vals'))
+            elif desc[0] == 'seqo':
+                post.heap[desc[1]] = SeqO(post.heap[desc[1]].skind, final)
+                post.written.add((desc[1], '*'))
+            elif desc[0] == 'symlist.len':
+                o = post.heap[desc[1]]
+                post.heap[desc[1]] = SymListO(final, o.elems, o.ekind)
+                post.written.add((desc[1], '*'))
+            elif desc[0] == 'symlist.elems':
+                o = post.heap[desc[1]]
+                post.heap[desc[1]] = SymListO(o.length, final, o.ekind)
+            elif desc[0] == 'env' and full:
+                run.env[desc[1]] = _with_term(desc[2], final)
+
+    st0_heap = dict(st0.heap)
+    build(run.st, n, None)        # continue in the pre-loop state object (it is ours)
+    # a raise in iteration k: the function is left from the state after k complete iterations plus the partial one
+    for e, g in zip(ends, guards):
+        if e[0] == 'raise':
+            kr = fresh('kraise', Int)
+            exc = pre_loop.clone()
+            exc.assume(z3.And(kr >= 0, kr < n))
+            build(exc, kr, (e, g))
+            run.eng.loop_raise(run, e[1], exc, g[0], g[1], where)
     # objects allocated inside the body do not survive (they are per-iteration locals)
     if collect:
         return _collect(run, dom, normal, nguards, gen, ik, n, merged)
@@ -583,6 +616,16 @@ class IdxVals:
                 for c in o0.cols:
                     m.cols[c] = self._mt([o.cols[c] for o in objs], j)
                 return run.st.alloc(m)
+            if all(isinstance(o, Obj) and o.cls == o0.cls and set(o.fields) == set(o0.fields) for o in objs):
+                fields = {}
+                for f in o0.fields:
+                    xs = [(o.fields[f], st) for o, (_, st) in zip(objs, vals)]
+                    if all(isinstance(x, Ref) for x, _ in xs) and len(set(x.loc for x, _ in xs)) == 1 \
+                            and xs[0][0].loc in run.st.heap:
+                        fields[f] = xs[0][0]        # the same pre-existing object in every iteration (shared)
+                    else:
+                        fields[f] = self._merge(xs, j)
+                return run.st.alloc(Obj(o0.cls, fields))
             if all(isinstance(o, SeqO) and o.skind == o0.skind for o in objs):
                 return SeqV(o0.skind, self._mt([o.term for o in objs], j), True)
             if all(isinstance(o, SymListO) for o in objs):
@@ -812,13 +855,26 @@ def build_map_from_pairs(run, dom, body, where):
     if isinstance(v, Ref) and isinstance(run.deref(v), Obj):
         o = run.deref(v)
         cols, vk = {}, {}
+        shared = None
         for f, x in o.fields.items():
-            kind = _vkind_of(x) if not isinstance(x, Ref) else None
+            if f == 'rng' and isinstance(x, Ref):
+                # every entry refers to the same pre-existing generator object: the shared generator
+                shared = x.loc
+                cols['#rng_shared'] = z3.K(Arm, z3.BoolVal(True))
+                cols['#rng_state'] = fresh('col_rng_state', z3.ArraySort(Arm, smt.Rng))
+                vk['#rng_shared'] = 'bool'
+                vk['#rng_state'] = 'rngstate'
+                continue
+            from .verify import RECORD_KINDS
+            decl = run.eng.class_decls(o.cls).get(f, '').replace(' const', '').strip()
+            kind = RECORD_KINDS.get(decl) or (_vkind_of(x) if not isinstance(x, Ref) else None)
             if kind is None:
                 raise Unsupported('object-valued dict with reference field %s' % f)
             cols[f] = z3.Lambda([a_], lib.col_term(run, kind, x))
             vk[f] = kind
-        return run.st.alloc(MapO(s, cols, vk, record_cls=o.cls))
+        mo = MapO(s, cols, vk, record_cls=o.cls)
+        mo.shared_rng = shared
+        return run.st.alloc(mo)
     kind = _vkind_of(v)
     return run.st.alloc(MapO(s, {'': z3.Lambda([a_], lib.col_term(run, kind, v))}, {'': kind}))
 
